@@ -198,6 +198,9 @@ func NewProof(hash *hash.Hash, private Private, public Public, pl *pool.Pool) *P
 }
 
 func (r *Response) Verify(n, w, y *big.Int) bool {
+	if r.X == nil || r.Z == nil {
+		return false
+	}
 	var lhs, rhs big.Int
 
 	// lhs = zⁿ mod n
@@ -235,7 +238,7 @@ func (p *Proof) Verify(public Public, hash *hash.Hash, pl *pool.Pool) bool {
 		return false
 	}
 
-	if big.Jacobi(p.W, n) != -1 {
+	if p.W == nil || big.Jacobi(p.W, n) != -1 {
 		return false
 	}
 
